@@ -156,6 +156,17 @@ def gen_c17(tier, R):
         x = rnd_double(R)
         n = R.choice(MATH + ["int", "float", "bool", "chr"])
         out.append(bi(1, n, [num(x)]))
+    # whole numbers and their neighbours a few ulps / a tiny epsilon away, in both signs (truncation, rounding and parity must not be nudged)
+    import math as _m
+    near = []
+    for kk in [0, 1, 2, 15, 16, 255, 256, 434, 435, 4095, 65535, 65536, 2**24, 2**31, 2**32, 2**52, 2**53]:
+        for sg in (1.0, -1.0):
+            base = sg * float(kk)
+            near += [base, _m.nextafter(base, 0.0), _m.nextafter(base, sg * _m.inf), base - sg * 1e-10, base - sg * 1e-12, base + sg * 1e-10, base - sg * 0.5, base + sg * 0.49999999999999994]
+    for x in near:
+        for n in MATH + ["int", "float", "bool", "str"]:
+            out.append(bi(1, n, [num(x)]))
+        out.append(f"(mathref _ {num(x)})")
     for cp in list(range(0, 300)) + [0x7ff, 0x800, 0xffff, 0x10000, 0x10ffff, 0xd7ff, 0xe000]:
         out.append(bi(1, "ord", [s(chr(cp))]))
         out.append(bi(1, "chr", [num(float(cp))]))
@@ -223,6 +234,15 @@ def gen_c16(tier, R):
         if R.random() < 0.85:
             a.append(num(float(R.choice([R.randint(-30, 30)] * 8 + [0, 1200, -1200, 10**7, -10**7, 2**31, 0.5, -0.5]))))
         out.append(bi(1, "inc_month", a))
+    # inc_month from every month end and leap day by whole years and by months that land in February, across century and 400-year boundaries
+    for y in [1896, 1900, 1904, 1996, 2000, 2004, 2023, 2024, 2096, 2100, 2396, 2400, 4, 8, 96, 100, 104, 9996]:
+        for (m, d) in [(2, 29), (2, 28), (1, 31), (1, 30), (1, 29), (3, 31), (12, 31), (8, 31), (10, 31), (11, 30), (3, 30)]:
+            try:
+                base = daynum(y, m, d)
+            except ValueError:
+                continue
+            for inc in [1, -1, 2, 11, 12, -12, 13, 24, -24, 36, 48, -48, 96, -96, 120, 1200, -1200, 4800, 6, -6, 12.5, 0]:
+                out.append(bi(1, "inc_month", [num(base + R.choice([0.0, 0.75, 0.999])), num(float(inc))]))
     for _ in range(k // 2):
         x = R.choice(vals) + R.choice(tods) / MSD
         out.append(bi(1, "date_to_string", [s(R.choice(["%Y-%m-%d", "%H:%M:%S", "%Y-%m-%d %H:%M:%S"])), num(x)]))
@@ -271,8 +291,8 @@ def gen_datefmt(tier, R):
 
 
 # ---------------- C13 ----------------
-ORD_POOL = [num(x) for x in [0.0, -0.0, 1.0, -1.0, 9.0, 10.0, 2.5, INF, -INF, NAN, 5e-324, 1e300]] + \
-           [s(t) for t in ["", "a", "b", "ab", "10", "9", " 9", "1e1", "nan", "inf", "-0", "é", "A", "true"]] + [b(True), b(False)] + \
+ORD_POOL = [num(x) for x in [0.0, -0.0, 1.0, -1.0, 9.0, 10.0, 2.5, INF, -INF, NAN, 5e-324, 1e300, 0.3, 0.30000000000000004]] + \
+           [s(t) for t in ["", "a", "b", "ab", "10", "9", " 9", "1e1", "nan", "inf", "-0", "é", "A", "true", "0.3", "+1", "infinity"]] + [b(True), b(False)] + \
            [arr(), arr(num(1.0)), arr(num(1.0), num(2.0)), arr(s("a")), arr(arr()), arr(arr(num(1.0)), s("a")), arr(num(NAN)), arr(s("9")), arr(num(9.0)), arr(s("10")), arr(b(True)), arr(num(1.0), s("a"))]
 
 
@@ -429,9 +449,17 @@ def gen_c09(tier, R, off):
 
 
 # ---------------- C14 ----------------
+EQ_SPELLINGS = None
+
+
 def gen_c14(tier, R):
     names = [n for n in registered_names() if n not in ('random', 'choice')]
-    eqpool = [num(1.0), s("1"), s("1.0"), b(True), num(0.0), s("0"), b(False), s(""), num(-0.0), s("-0"), num(2.0), s("2"), s("a"), arr(), arr(num(1.0)), arr(s("1"))]
+    eqpool = [num(1.0), s("1"), s("1.0"), b(True), num(0.0), s("0"), b(False), s(""), num(-0.0), s("-0"), num(2.0), s("2"), s("a"), arr(), arr(num(1.0)), arr(s("1")),
+              # every spelling the float parser accepts for one number: a hash that classifies strings by their look must agree with `=`
+              num(INF), s("inf"), s("infinity"), s("Infinity"), s("INF"), s("+inf"), s("+infinity"), num(-INF), s("-inf"), s("-infinity"), num(NAN), s("nan"), s("NaN"),
+              s("+1"), s("1e0"), s("1E0"), s("01"), s("1."), s(".5"), num(0.5), s("0.5"), s("5e-1"), s("+.5"), num(10.0), s("1e1"), s("10"), s("1_0"), s(" 1"), s("0x1")]
+    global EQ_SPELLINGS
+    EQ_SPELLINGS = eqpool
     arrays = []
     for _ in range(400 if tier == 'quick' else 20000):
         arrays.append(arr(*[R.choice(eqpool) for _ in range(R.randint(0, 9))]))
